@@ -202,18 +202,50 @@ Definition close_ovec (eps : Q) (u v : option (list Q)) : bool :=
   | None, None => true
   | _, _ => false
   end.
-(* case: index, A, b, x0, M, tol, maxiter, the implementation's result (None = non-finite), eps.
-   The implementation's value must be eps-close to the model's, where the tolerance test may be
+(* One pass that yields the value of CG(maxiter = k) for every k <= K: the list of the x visited by
+   the loop (it ends where the tolerance test fires, where a division by zero occurs (flag), or after
+   K bodies).  Proofs/Solver.v (cg_values_spec) shows that the k-th entry of [cg_sq_values] is
+   [cg_value (cg_sq tol (Some k) ...)]. *)
+Section Trace.
+Context {F : Type} {NF : Num F}.
+Fixpoint cg_states (conv : vec -> bool) (fuel : nat) (A : mat) (M : option mat) (x r : vec (F:=F)) (prev : cg_prev)
+  : list vec * bool :=
+  match fuel with
+  | O => ([x], false)
+  | S f =>
+      if conv r then ([x], false)
+      else match cg_body A M x r prev with
+           | None => ([x], true)
+           | Some (x', r', pr) => let '(l, nf) := cg_states conv f A M x' r' (Some pr) in (x :: l, nf)
+           end
+  end.
+Definition value_at (st : list vec * bool) (k : nat) : option (vec (F:=F)) :=
+  let '(l, nf) := st in
+  if (k <? length l)%nat then Some (nth k l [])
+  else if nf then None else Some (List.last l []).
+Definition cg_core_values (bzero : vec -> bool) (conv : vec -> vec -> bool) (K : nat) (ks : list nat)
+                          (A : mat) (b : vec) (x0 : option vec) (M : option mat) : list (option vec) :=
+  let x := match x0 with Some x => x | None => map (fun _ => zero) b end in
+  if bzero b then map (fun _ => Some b) ks else
+  let r := if vany x then vsub b (mv A x) else b in
+  let st := cg_states (conv b) K A M x r None in
+  map (value_at st) ks.
+Definition cg_sq_values (tol : F) :=
+  cg_core_values (fun b => (dot b b =? zero)%num) (fun b r => (dot r r <? (tol * tol) * dot b b)%num).
+End Trace.
+
+(* case: index, A, b, x0, M, tol, K, [(k, value of CG(maxiter = k) in the implementation (None =
+   non-finite))] with all k <= K, eps.
+   The implementation's values must be eps-close to the model's, where the tolerance test may be
    decided with tol, tol(1+2^-20) or tol(1-2^-20): a float64 run cannot be told apart from the exact
    one when norm(r) is within rounding of atol. *)
-Definition cg_case := (nat * list (list Q) * list Q * option (list Q) * option (list (list Q)) * Q * option nat
-                       * option (list Q) * Q)%type.
+Definition cg_case := (nat * list (list Q) * list Q * option (list Q) * option (list (list Q)) * Q * nat
+                       * list (nat * option (list Q)) * Q)%type.
 Definition cg_case_ok (c : cg_case) : bool :=
-  let '(_, A, b, x0, M, tol, mi, impl, eps) := c in
-  let run t := cg_value (cg_sq t mi A b x0 M) in
+  let '(_, A, b, x0, M, tol, K, impl, eps) := c in
+  let ok t := forallb (fun p => close_ovec eps (fst p) (snd p)) (combine (cg_sq_values t K (map fst impl) A b x0 M) (map snd impl)) in
   let d := (1 # 1048576)%Q in
-  close_ovec eps (run tol) impl || close_ovec eps (run (Qred (tol * (1 + d)))%Q) impl
-  || close_ovec eps (run (Qred (tol * (1 - d)))%Q) impl.
+  if ok tol then true else if ok (Qred (tol * (1 + d)))%Q then true else ok (Qred (tol * (1 - d)))%Q.
 Definition cg_bad (cs : list cg_case) : list nat :=
   map (fun c => let '(i, _, _, _, _, _, _, _, _) := c in i) (filter (fun c => negb (cg_case_ok c)) cs).
 (* which way the model leaves: 0 = return b, 1 = tolerance exit, 2 = maxiter, 3 = non-finite;
